@@ -15,7 +15,7 @@ import ms
 from common import qlit
 
 MANIFEST = dict(
-    text='Theorems (props/C12.v, 18, all closed under the global context) about a hand-written Gallina model of HaighDiagram.transform / '
+    text='Theorems (props/C12.v, 21, all closed under the global context) about a hand-written Gallina model of HaighDiagram.transform / '
          '_SegmentTransformer (segment ordering by distance from the target in fake-mean-stress space with stable ties, closed test interval, '
          'the +-inf flip, transformed_amplitude incl. R_goal = -inf and 1.0 -> -inf), the FKM-Goodman and five-segment diagram constructors and '
          '_rebin_results, over Q with an extended rational type for R. segment_walk_invariant: a * H(R) is invariant under every step of the '
@@ -31,8 +31,13 @@ MANIFEST = dict(
          'listing, with and without the repair), natural_listing_refuted (code as it is: the FKM-Goodman diagram listed in the natural order of R leaves a cycle '
          'at R = 2 untransformed for the goal R = 1/2 and is path dependent; open finding segment-listing-order), listing_repair_keeps_fkm_goodman / '
          '_five_segment (fixes/C12-segment-listing-order.patch, model flag fo = true, does not change the constructors\' diagrams, so every theorem above carries over). '
+         'Index layout of the inputs: matrix_result_independent_of_row_layout (the re-binned result, class by class, depends only on the multiset of the non-empty '
+         'rows (transformed range, cycles) of the matrix: row order and sparsity -- mat[mat > 0] -- do not matter when ranges and cycles are paired by label), '
+         'frame_index_order_irrelevant and frame_row_is_single_diagram_transformation (one parameter set per element: every row is transformed with the diagram its '
+         'element id looks up in the frame of parameter sets, whatever the order in which the frame lists its distinct ids). '
          'The model is tied to the code by a vm_compute correspondence check of amplitude and mean through the plain functions, the '
-         'DataFrame accessor (several index layouts, one diagram per element) and the histogram accessor, and of the re-binned counts.',
+         'DataFrame accessor (several index layouts, one diagram per element with the frame of parameter sets indexed in ascending / descending / arbitrary id order) '
+         'and the histogram accessor (full, permuted and sparse matrices), and of the re-binned counts.',
     note=common.TB_NOTE + 'all C12 theorems are closed under the global context (no axioms). Model is hand-written: the correspondence harness '
          '(generators, Coq literals, exact Fraction oracle) is trusted; float rounding is outside the theorems (comparison tolerance 1e-9 '
          'relative to the magnitude of the cycle); pandas/numpy internals (alignment, stable sort of <= 5 distances, IntervalIndex, linspace/ceil in '
@@ -680,8 +685,10 @@ def run(res):
                        'slopes in [0,1), 10% wild slopes in [-2,2] with divisors bounded away from 0); targets: -inf, borders 0/R12/R23, segment mids '
                        '(distance 0), dyadic R < 1 and R > 1; cycles: random dyadic (amplitude, mean), exactly on borders / on the target / 2^-k beside '
                        'them, compressive R > 1; interfaces: plain function, DataFrame accessor (range/mean or from/to; RangeIndex, named, MultiIndex, '
-                       'string index; one diagram per element), histogram accessor (range/mean and from/to matrices, optional node level; 55% product order, else rows '
-                       'shuffled / reversed / two rows swapped and / or index levels reordered); 40% of the non-wild diagrams additionally through HaighDiagram.from_dict '
+                       'string index; one diagram per element: 2-4 different parameter sets, frame ids ascending / descending / any order, the collective listing the '
+                       'elements in the same or another order), histogram accessor (range/mean and from/to matrices, optional node level; 55% product order, else rows '
+                       'shuffled / reversed / two rows swapped and / or index levels reordered; 50% / 30% of these SPARSE: only the non-empty classes, a random subset or '
+                       'all but the diagonal are listed); 40% of the non-wild diagrams additionally through HaighDiagram.from_dict '
                        'in a random rotation of the natural segment order; collective cycles with -0.0 as upper or lower value; '
                        'non-trivial = distinct (diagram, target, cycle) triples whose model/implementation pair was compared')
     common.standard_proof_stage(res, 'C12')
